@@ -741,6 +741,7 @@ class NetworkGraph(AbstractBaseIR):
 
         # step 2: process incoming edges
         source_vars, args = {}, {}
+        matrix_aliases = {}
         eqs, in_vars = [], []
         for i, (weight, sidx, tidx, (snode, sop, svar), edge_ir, edge_var_map) in \
                 enumerate(zip(weights, source_indices, target_indices, sources, edge_irs, edge_var_maps)):
@@ -790,6 +791,9 @@ class NetworkGraph(AbstractBaseIR):
             # case 0: matrix edge — weight is a 2-D numpy array supplied directly
             # (used by Connectivity; no scalar expansion needed)
             if isinstance(weight, np.ndarray) and weight.ndim == 2:
+                # a variable that enters this operator more than once (as the source of one connection and as the
+                # post-synaptic variable of a coupling edge) is known under a single local alias
+                s_str = matrix_aliases.setdefault((snode, sop, svar), s_str)
                 source_vars[s_str] = {'sources': [sop], 'node': snode, 'var': svar}
                 # Always register the full 2-D weight for cases 0b/0c (wsum uses it);
                 # case 0a may override with a 1-D vector for the single-source path.
@@ -842,8 +846,12 @@ class NetworkGraph(AbstractBaseIR):
                         else:
                             post_var = info['var']
                             post_op = info['op']
-                            expr_map[ev] = f'broadcast_post({post_var})'
-                            source_vars[post_var] = {'sources': [post_op], 'node': tnode, 'var': post_var}
+                            post_str = post_var
+                            while post_str in source_vars or post_str in (t_str, w_str):
+                                post_str = f'{post_str}_post'   # the bare name is taken by another variable
+                            post_str = matrix_aliases.setdefault((tnode, post_op, post_var), post_str)
+                            expr_map[ev] = f'broadcast_post({post_str})'
+                            source_vars[post_str] = {'sources': [post_op], 'node': tnode, 'var': post_var}
 
                     # constants of the edge operators (algebraic and dynamic edges alike)
                     for _ok in edge_ir.op_graph.nodes:
